@@ -18,6 +18,21 @@ impl Transform for Slice {
             to = str.len();
         }
 
+        if from >= to {
+            return "".to_string();
+        }
+
+        // offsets are bytes: never cut inside a multi-byte character
+        let mut from = from;
+
+        while !str.is_char_boundary(from) {
+            from -= 1;
+        }
+
+        while !str.is_char_boundary(to) {
+            to -= 1;
+        }
+
         str[from..to].to_string()
     }
 }
